@@ -15,7 +15,12 @@
 EXTENDS Integers, Sequences, FiniteSets, TLC, Json, IOUtils
 
 CONSTANTS MaxT0, MaxDt, MaxSpan,    \* bounds in ticks
-          BigT0                     \* additional large initial times in ticks (restarts: t1 - t0 cancels in floating point)
+          BigT0,                    \* additional large initial times in ticks (restarts: t1 - t0 cancels in floating point)
+          LongRuns                  \* additional triples <<t0, t1, dt>> in fine ticks: thousands of steps, t1 just before / on / just after a grid point
+                                    \* (a tolerance on (t1 - t0) / dt that grows with the number of steps would drop or add a step there)
+
+\* the long runs the checks use (ticks of 1e-6): 1000 .. 20000 steps
+LongRunsDefault == {<<0, 1000004, 1000>>, <<0, 1000000, 1000>>, <<0, 999996, 1000>>, <<250000, 1250004, 1000>>, <<0, 2000010, 100>>, <<0, 2000000, 100>>, <<3, 1200011, 400>>}
 
 VARIABLES t0, t1, dt, m     \* m: number of accepted steps (m = N for a complete run)
 
@@ -28,10 +33,11 @@ NCeil(a, b, d) == ((b - a) + d - 1) \div d
 
 Grid(a, d, n) == [k \in 0..n |-> a + k * d]
 
-Init == /\ t0 \in (0..MaxT0) \cup BigT0
-        /\ dt \in 1..MaxDt
-        /\ t1 \in (t0 + 1)..(t0 + MaxSpan)
-        /\ m \in {NCeil(t0, t1, dt)} \cup {k \in 0..2 : k < NCeil(t0, t1, dt)}
+Init == \/ /\ t0 \in (0..MaxT0) \cup BigT0
+           /\ dt \in 1..MaxDt
+           /\ t1 \in (t0 + 1)..(t0 + MaxSpan)
+           /\ m \in {NCeil(t0, t1, dt)} \cup {k \in 0..2 : k < NCeil(t0, t1, dt)}
+        \/ \E tr \in LongRuns : t0 = tr[1] /\ t1 = tr[2] /\ dt = tr[3] /\ m = NCeil(tr[1], tr[2], tr[3])
 Next == UNCHANGED vars
 Spec == Init /\ [][Next]_vars
 
@@ -39,7 +45,8 @@ N == NCeil(t0, t1, dt)
 Stored == Grid(t0, dt, m)
 
 \* the two definitions of the step count agree
-CountsAgree == NDecl(t0, t1, dt) = NCeil(t0, t1, dt)
+CountsAgree == /\ t0 + N * dt >= t1 /\ t0 + (N - 1) * dt < t1
+               /\ (<<t0, t1, dt>> \notin LongRuns => NDecl(t0, t1, dt) = NCeil(t0, t1, dt))
 \* C20, grid clause
 StartsAtT0 == Stored[0] = t0
 StepIsDt == \A k \in 1..m : Stored[k] - Stored[k - 1] = dt
